@@ -416,9 +416,33 @@ def _check_escape_tables(ctx) -> None:
         cmp_caret = any(isinstance(n, ast.Compare) and isinstance(n.comparators[0], ast.Constant) and n.comparators[0].value == "^" and isinstance(n.left, ast.Attribute) and n.left.attr == "character" for n in ast.walk(tcs.node))
         emits = any(isinstance(n, ast.Constant) and n.value == "\\^" for n in ast.walk(tcs.node))
         first = any(isinstance(n, ast.Compare) and isinstance(n.left, ast.Name) and isinstance(n.comparators[0], ast.Constant) and n.comparators[0].value == 0 for n in ast.walk(tcs.node))
-        if cmp_caret and emits and first:
+        # the guard of that branch may only consist of the conditions under which a raw caret WOULD complement the set:
+        # first range, the character is a caret, it is not numerically encoded, nothing was written before.  Any further
+        # conjunct (e.g. "the range has no end") leaves a leading caret unescaped in the remaining cases.
+        extra = []
+        branch = None
+        for n in ast.walk(tcs.node):
+            if isinstance(n, ast.If) and any(isinstance(c, ast.Constant) and c.value == "\\^" for s_ in n.body for c in ast.walk(s_)):
+                branch = n
+        if branch is not None:
+            conj = branch.test.values if isinstance(branch.test, ast.BoolOp) and isinstance(branch.test.op, ast.And) else [branch.test]
+            for c in conj:
+                t = ast.unparse(c)
+                allowed = (
+                    (isinstance(c, ast.Compare) and isinstance(c.comparators[0], ast.Constant) and c.comparators[0].value in (0, "^"))
+                    or t.endswith("explicitly_encoded") and t.startswith("not ")
+                    or t.startswith("not already_output")
+                )
+                if not allowed:
+                    extra.append(t)
+        if cmp_caret and emits and first and branch is not None and not extra:
             syn_rng.discard("^")
-            ctx.ok("ESC-TAB", tcs, tcs.node, what="leading caret of a set escaped in a dedicated branch of transform_char_set")
+            ctx.ok("ESC-TAB", tcs, tcs.node, what="leading caret of a set escaped in a dedicated branch of transform_char_set (guard: first range, caret, not encoded, nothing written)")
+        elif cmp_caret and emits and first and extra:
+            ctx.fail("ESC-TAB", tcs, branch,
+                     f"the branch that escapes a leading caret also requires {extra}: in the other cases a set whose first range starts with `^` is rendered with a raw caret and becomes a complementing set",
+                     construct="leading caret branch has extra conditions")
+            syn_rng.discard("^")
     for arms, tab, syn, ctxname, pf in ((arms_lit, lit_tab, syn_lit, "literal", f_lit), (arms_rng, rng_tab, syn_rng, "range", f_rng)):
         for esc, ch in sorted(arms.items()):
             if ch not in syn:
